@@ -20,7 +20,7 @@ package serializers
 //@   assigns \nothing
 
 //@ func CDX.Serialize
-//@   props C07, C11, C06
+//@   props C07, C11, C06, C03
 //@   assigns \nothing
 //@   ensures [C06:decl:cdx] result1 == nil ==> typeis(result0, *cyclonedx.BOM) && as(result0, *cyclonedx.BOM) != nil && as(result0, *cyclonedx.BOM).BOMFormat == "CycloneDX"
 //@   invariant L0: doc != nil && rootfresh(doc) && doc.Metadata != nil && rootfresh(doc.Metadata) && doc.Metadata.Lifecycles != nil && rootfresh(doc.Metadata.Lifecycles) && (arr(*doc.Metadata.Lifecycles) == nil || rootfresh(arr(*doc.Metadata.Lifecycles)))
@@ -48,6 +48,11 @@ package serializers
 //@   invariant L0: cdxStateOK(state)
 //@   invariant L1: cdxStateOK(state)
 //@   invariant L2: cdxStateOK(state)
+// C03: a node is withheld from the top-level component list (marked in addedDict)
+// only if it is the root or the target of a contains edge, i.e. nested under its parent
+//@   invariant L0: [C03:inv] (forall k string :: (k in state.addedDict) ==> k == bom.NodeList.RootElements[0] || (exists i int, j int :: 0 <= i && i < len(bom.NodeList.Edges) && bom.NodeList.Edges[i].Type == 5 && 0 <= j && j < len(bom.NodeList.Edges[i].To) && bom.NodeList.Edges[i].To[j] == k))
+//@   invariant L1: [C03:inv] (forall k string :: (k in state.addedDict) ==> k == bom.NodeList.RootElements[0] || (exists i int, j int :: 0 <= i && i < len(bom.NodeList.Edges) && bom.NodeList.Edges[i].Type == 5 && 0 <= j && j < len(bom.NodeList.Edges[i].To) && bom.NodeList.Edges[i].To[j] == k))
+//@   invariant L2: [C03:inv] (forall k string :: (k in state.addedDict) ==> k == bom.NodeList.RootElements[0] || (exists i int, j int :: 0 <= i && i < len(bom.NodeList.Edges) && bom.NodeList.Edges[i].Type == 5 && 0 <= j && j < len(bom.NodeList.Edges[i].To) && bom.NodeList.Edges[i].To[j] == k))
 
 //@ func serializerCDXState.components
 //@   inline
